@@ -6,6 +6,7 @@ import MosnVerif.Model.DispatchCtxSpec
 import MosnVerif.Lemmas.BufReuse
 import MosnVerif.Lemmas.HpackOrder
 import MosnVerif.Lemmas.StreamGen
+import MosnVerif.Lemmas.StreamGenPool
 /-!
 # C02 — request/response correlation on an xprotocol client stream connection (property theorems only)
 
@@ -678,16 +679,53 @@ theorem notified_once (evs : List Ev) (k : Nat) :
   · exact Or.inl hg
   · exact Or.inr (h.gotOk k hg).2
 
-/- no_foreign_answer (FULL statement, not machine-checked in general): for every schedule, `(s.ex k).got = [j] → j = k`.
-It follows from destroy_hits_own_generation (a connection is idle in the pool only after the response of the exchange it
-was leased to has been read) together with the HTTP/1 / ping-pong pool theorems of C09 (an idle connection is leased to
-one exchange at a time); the composition is evaluated by the driver on every schedule of kind `sgen`, and proved here
-for the schedule family below only. -/
+/-- **the pool hypothesis**, stated in C09's vocabulary and DISCHARGED for every schedule: the idle list has no
+duplicates and holds only connections the pool made; an idle connection is leased to nobody (C09 `partition`); a
+connection is leased to ONE exchange at a time, from its `take` until its wrapper's DestroyStream (C09 `exclusive`); an
+idle or not yet dialled connection has no request in flight on it (C09 `idle_clean_always` / `lease_never_dirty`: what is
+leased again carries nothing of an earlier exchange). Proved by induction over the schedule for the pool as
+Model/StreamGen has it (LIFO idle list, give-back by the DestroyStream of the generation the pool client listens on); it
+needs `destroy_hits_own_generation` - with the seeded deliver-before-destroy order `excl` is false (witness below). -/
+theorem pool_hypothesis_holds (evs : List Ev) : PoolHyp (run realProg {} evs) := by
+  rw [wrapper_destroys_before_delivering]
+  exact (full_run evs {} full_init).pool
+
+/-- what is written on a connection and not answered yet is at most the request of its lease holder, and `conn.stream`
+points at that holder: the response read next on a connection is handed to the wrapper of the exchange that asked -/
+theorem wire_belongs_to_holder (evs : List Ev) (c j : Nat) :
+    let s := run realProg {} evs
+    j ∈ s.wire c → s.wire c = [j] ∧ s.slot c = some j ∧ (s.ex j).conn = c ∧ holds (s.ex j) := by
+  intro s hj
+  have h : Full s := by
+    show Full (run realProg {} evs)
+    rw [wrapper_destroys_before_delivering]
+    exact full_run evs {} full_init
+  have hw := h.wire.wireOk c j hj
+  have hs := h.inv.slotOk c j hw.2
+  exact ⟨hw.1, hw.2, hs.2.2, hs.2.1, Or.inl hs.1⟩
+
+/-- **no_foreign_answer** (FULL statement): for EVERY schedule `evs` - any interleaving of take / send / read / io /
+finish events of any number of exchanges over any number of pooled stream objects and connections, every hand-out order
+of the buffer pool - under the regenerated real order of the receiver wrapper: whatever exchange `k` is handed is the
+answer to its own request. (With `notified_once`: it is handed nothing or exactly `[k]`.) -/
+theorem no_foreign_answer (evs : List Ev) (k j : Nat) :
+    ((run realProg {} evs).ex k).got = [j] → j = k := by
+  rw [wrapper_destroys_before_delivering]
+  exact got_own _ (full_run evs {} full_init) k j
+
+/-- … in the form the driver evaluates: handed nothing, or exactly the own answer -/
+theorem got_nothing_or_own (evs : List Ev) (k : Nat) :
+    ((run realProg {} evs).ex k).got = [] ∨ ((run realProg {} evs).ex k).got = [k] := by
+  rcases notified_once evs k with h | h
+  · exact Or.inl h
+  · exact Or.inr (by rw [h, no_foreign_answer evs k _ h])
+
 def pipeline (n : Nat) : List Ev :=
   (List.range n).flatMap (fun k => [.take k 0, .send k, .read 0, .io k, .io k, .finish k])
 
+-- non-vacuity: a schedule in which every exchange IS answered (four exchanges through one object and one connection)
 set_option maxRecDepth 8000 in
-theorem no_foreign_answer_partial : ∀ k < 4, ((run realProg {} (pipeline 4)).ex k).got = [k] := by decide
+example : ∀ k < 4, ((run realProg {} (pipeline 4)).ex k).got = [k] := by decide
 
 /-- the witness schedule: A answered, notified; its worker finishes and recycles; B takes the same object on a new
 connection; the I/O goroutine goes on; C asks the pool; B and C write; B's answer arrives -/
@@ -705,6 +743,11 @@ takes B's connection back while B is in flight, C is leased it and receives B's 
 example : let s := run [.deliver, .destroy] {} lateDestroy
     (∃ r ∈ s.log, r.ex = 0 ∧ r.genMade = 1 ∧ r.genHit = 2 ∧ r.gave = some 1 ∧ r.own = 0) ∧
     (s.ex 2).conn = (s.ex 1).conn ∧ (s.ex 2).got = [1] ∧ (s.ex 1).got = [] := by decide
+
+/-- … and the pool hypothesis is what breaks: B and C hold the same connection at the same time (`excl` fails) -/
+example : let s := run [.deliver, .destroy] {} (lateDestroy.take 10)
+    (s.ex 1).taken = true ∧ (s.ex 2).taken = true ∧ (s.ex 1).pc = none ∧ (s.ex 2).pc = none ∧
+    (s.ex 1).conn = (s.ex 2).conn ∧ s.wire (s.ex 1).conn = [1, 2] := by decide
 
 end StreamGenerations
 
